@@ -45,9 +45,16 @@ def run(repo, res):
     res.count('scoped_paths', n, floor=25)
     brecs = R.binder_records(repo)
     for (cls, kind, path), r in sorted(brecs.items()):
-        if r['n'] == 0 or r['missing']:
+        if r['n'] == 0:
             continue
         key = '%s %s %s' % (R.method_name(repo, cls), kind, path)
+        if r['missing']:
+            # a binder that registers nothing leaves the name out of the scope's locals: an outer or builtin binding of the same
+            # spelling satisfies the reads
+            res.check('C05-R1', key + ' scope', False, r['line'][0], r['line'][1],
+                      'binder %s registers no binding (shape %s): the name is not made a local of the scope CPython assigns it to, an '
+                      'outer binding of the same spelling is reported for its reads' % (key, r['missing'][0]))
+            continue
         res.check('C05-R1', key + ' scope', not r['wrong_scope'], r['line'][0], r['line'][1],
                   'binder %s is entered in scope %s; CPython makes it a name of the %s scope'
                   % (key, r['wrong_scope'][0][2] if r['wrong_scope'] else '',
